@@ -369,13 +369,27 @@ def r4(ctx):
                   "self.min_dz['dz'].append")
     loops = [n for n in g.nodes if n.kind == 'loop' and
              src(n.expr) == 'range(len(self.assemblies))']
-    ok = len(apps) == 1 and len(loops) == 1
+    # the contribution may be written once per exit of the pass (a guard
+    # `continue` after an early append): what counts is that every pass of the
+    # loop meets exactly one append, whichever path it takes
+    ok = len(apps) >= 1 and len(loops) == 1 and all(
+        dataflow._in_body(a_, loops[0].stmt) for a_ in apps)
     if ok:
-        # from loop-body entry every path back to the header passes the append
+        # from loop-body entry every path back to the header passes an append
         body_first = [s for s in loops[0].succ
                       if dataflow._in_body(s, loops[0].stmt)]
         ok = all(not g.path_exists(b, loops[0], avoid=apps) or b in apps
                  for b in body_first)
+        # ... nor leaves the loop (break / return) without one
+        ok = ok and all(
+            not g.path_exists(b, g.exit, avoid=apps + [loops[0]])
+            or b in apps for b in body_first)
+        # ... and never a second one in the same pass
+        ok = ok and not any(g.path_exists(a_, b_, avoid=[loops[0]])
+                            for a_ in apps for b_ in apps)
+        # ... and the pass goes on to the next assembly afterwards
+        ok = ok and not any(g.path_exists(a_, g.exit, avoid=[loops[0]])
+                            for a_ in apps)
     ctx.require(ok, 'C05.R4', am, apps[0].stmt if apps else am.node,
                 'every assembly must contribute its step requirement on every '
                 'path', key=am.full + ' | every assembly contributes')
